@@ -146,6 +146,9 @@ def main(tier, seed):
         chk.broken.append('the error oracle evaluated nothing')
     if chk.cov.get('oracle_selftests_passed', 0) == 0:
         chk.broken.append('oracle self-test did not run')
+    chk.set('violation_signatures', sorted(v['sig'] for v in chk.violations))
+    chk.set('violation_cases', {v['sig']: (v['detail'] or {}).get('cases') for v in chk.violations
+                                if isinstance(v.get('detail'), dict)})
     vcheck.finalize_classes(chk)
     chk.set('rule', 'every case of: 17 PLApproximate<Con> instantiations (ExpA/LogA x bases {0.5,2,e,10}, Pow x exponents '
             '{-2,-1,-0.5,0.5,1.5,2,3,4}: 30 function instances) x argument intervals (all ordered pairs lb<ub of the interval '
